@@ -96,6 +96,7 @@ def tableLine (T : Tables) (t : List String) : Tables :=
   | "js" :: r => { T with js := r.map (fun s => match s.splitOn ":" with | [k, b] => (natOf k, b == "1") | _ => (0, false)) }
   | "m" :: r => { T with m := r.map denOf }
   | ["names", ch, hd] => { T with charName := natOf ch, hdrName := natOf hd }
+  | ["maxid", n] => { T with maxMsgId := natOf n }
   | _ => T
 
 def specOf (t : List String) : FieldsSpec :=
